@@ -102,9 +102,12 @@ impl Check for C16Faults {
         let fail = |m: String| CaseResult::Fail(format!("{} [args {:?} input {}]", m, args, esc_trunc(&input, 300)));
         let ff_ok = ff.res.is_ok();
         // ---------------- read faults at every offset (also exactly at the end)
-        for k in 0..=input.len() {
+        for k2 in 0..=(2 * input.len() + 1) {
+            // every offset twice: a descriptor that keeps failing, and an error that is reported
+            // once and followed by end of stream (a reset connection)
+            let (k, once) = (k2 / 2, k2 % 2 == 1);
             let kind = KINDS[(k + case.kind_shift) % KINDS.len()];
-            let (o, _) = run_spec(&RunSpec { args: args.clone(), stdin: input.clone(), delivery: Some(delivery.clone()), read_fault: Some(ReadFault { fail_at: k, kind }), ..Default::default() });
+            let (o, _) = run_spec(&RunSpec { args: args.clone(), stdin: input.clone(), delivery: Some(delivery.clone()), read_fault: Some(ReadFault { fail_at: k, kind, once }), ..Default::default() });
             runs += 1;
             if o.res.is_panic() {
                 return fail(format!("read fault ({:?}) at byte {}: panic {}", kind, k, o.res.short()));
@@ -117,7 +120,7 @@ impl Check for C16Faults {
                 if legit {
                     continue;
                 }
-                return fail(format!("read fault ({:?}) at byte {} was not reported: the run returned Ok (mistaken for end of input or skipped)", kind, k));
+                return fail(format!("read fault ({:?}{}) at byte {} was not reported: the run returned Ok (mistaken for end of input or skipped)", kind, if once { ", reported once" } else { "" }, k));
             }
             if streaming(case.pipeline) || true {
                 if !ff.stdout.starts_with(&o.stdout) {
